@@ -2,6 +2,7 @@ package chsql
 
 import (
 	"math"
+	"strings"
 )
 
 // fnDef describes a scalar function.
@@ -552,4 +553,75 @@ func init() {
 		b, _ := bitsOf(args[0])
 		return makeInt(k == 'i', size, ^b), nil
 	}, typ: func(t *typeCall) (*Type, error) { return t.args[0], nil }})
+}
+
+// realButUnimplemented lists ClickHouse functions that exist but are outside the subset: calling
+// them is ErrUnsupported ("undecided"), not a statement ClickHouse would reject.
+var realButUnimplemented = map[string]bool{}
+
+func init() {
+	for _, n := range strings.Fields(`
+		sipHash64 sipHash128 xxHash32 xxHash64 javaHash javaHashUTF16LE hiveHash murmurHash2_32 murmurHash2_64 murmurHash3_32
+		murmurHash3_64 murmurHash3_128 farmHash64 farmFingerprint64 metroHash64 cityHash128 intHash32 intHash64 halfMD5 MD5 SHA1 SHA224 SHA256 SHA512 URLHash
+		toStartOfMinute toStartOfFiveMinutes toStartOfFiveMinute toStartOfTenMinutes toStartOfFifteenMinutes toStartOfHour toStartOfWeek toStartOfMonth
+		toStartOfQuarter toStartOfYear toStartOfInterval toStartOfSecond toMonday toYear toQuarter toMonth toDayOfMonth toDayOfWeek toDayOfYear toHour toMinute toSecond
+		toYYYYMM toYYYYMMDDhhmmss toDateTime64 toDate32 toTime toTimeZone toUnixTimestamp64Milli toUnixTimestamp64Micro toUnixTimestamp64Nano
+		fromUnixTimestamp fromUnixTimestamp64Milli fromUnixTimestamp64Micro fromUnixTimestamp64Nano FROM_UNIXTIME formatDateTime parseDateTimeBestEffort
+		parseDateTimeBestEffortOrNull parseDateTimeBestEffortOrZero dateDiff date_diff dateAdd date_add dateSub date_sub dateTrunc date_trunc addSeconds addMinutes addHours addDays addWeeks
+		addMonths addYears subtractSeconds subtractMinutes subtractHours subtractDays subtractWeeks subtractMonths subtractYears timeSlot timeSlots yesterday now64 toIntervalSecond
+		toIntervalMinute toIntervalHour toIntervalDay toIntervalWeek toIntervalMonth toIntervalYear toDecimal32 toDecimal64 toDecimal128 toUUID generateUUIDv4 toFixedString
+		toInt128 toInt256 toUInt128 toUInt256 toBool accurateCast accurateCastOrNull reinterpretAsUInt64 reinterpretAsInt64 reinterpretAsString reinterpretAsFixedString reinterpret
+		toStringCutToZero bin unbin bitmaskToList bitmaskToArray bitCount bitTest bitRotateLeft bitRotateRight bitHammingDistance char
+		lowerUTF8 upperUTF8 reverseUTF8 substringUTF8 positionUTF8 positionCaseInsensitive positionCaseInsensitiveUTF8 multiSearchAny multiSearchFirstIndex multiSearchFirstPosition
+		multiSearchAllPositions multiMatchAny multiMatchAnyIndex multiMatchAllIndices countSubstrings countMatches regexpQuoteMeta leftPad rightPad leftPadUTF8 rightPadUTF8 repeat space
+		appendTrailingCharIfAbsent base64Encode base64Decode tryBase64Decode endsWithUTF8 startsWithUTF8 normalizeQuery normalizedQueryHash encodeXMLComponent decodeXMLComponent
+		extractAll extractGroups alphaTokens splitByRegexp splitByWhitespace splitByNonAlpha tokens ngrams toValidUTF8 left right leftUTF8 rightUTF8 ascii soundex
+		domain domainWithoutWWW topLevelDomain protocol path pathFull queryString fragment extractURLParameter extractURLParameters cutURLParameter decodeURLComponent encodeURLComponent
+		emptyArrayUInt8 emptyArrayUInt16 emptyArrayUInt32 emptyArrayUInt64 emptyArrayInt8 emptyArrayInt16 emptyArrayInt32 emptyArrayInt64 emptyArrayFloat32 emptyArrayFloat64
+		emptyArrayString emptyArrayDate emptyArrayDateTime emptyArrayToSingle arrayWithConstant arrayPushBack arrayPushFront arrayPopBack arrayPopFront arrayResize arrayUniq
+		arrayCumSum arrayCumSumNonNegative arrayDifference arrayProduct arrayAvg arrayCompact arrayIntersect arrayFill arrayReverseFill arraySplit arrayReverseSplit arrayFirstIndex arrayLastIndex
+		arrayFirstOrNull arrayLastOrNull arrayEnumerateUniq arrayEnumerateDense arrayReduceInRanges arrayFold arrayAUC arrayRotateLeft arrayRotateRight arrayShiftLeft arrayShiftRight
+		arrayPartialSort arrayPartialReverseSort arrayShuffle hasAll hasAny hasSubstr countEqual arrayJaccardIndex
+		mapAdd mapSubtract mapPopulateSeries mapContainsKeyLike mapExtractKeyLike mapSort mapReverseSort mapExists mapAll mapConcat mapPartialSort mapFromString extractKeyValuePairs
+		untuple tupleHammingDistance tupleToNameValuePairs tuplePlus tupleMinus tupleConcat tupleNames
+		JSONExtract JSONExtractArrayRaw JSONExtractKeysAndValuesRaw JSON_EXISTS JSON_QUERY JSON_VALUE toJSONString JSONArrayLength simpleJSONHas simpleJSONExtractUInt simpleJSONExtractInt
+		simpleJSONExtractFloat simpleJSONExtractBool simpleJSONExtractRaw simpleJSONExtractString visitParamHas visitParamExtractUInt visitParamExtractInt visitParamExtractFloat
+		visitParamExtractBool visitParamExtractRaw visitParamExtractString
+		sign sin cos tan asin acos atan atan2 sinh cosh tanh cbrt erf erfc lgamma tgamma exp2 exp10 log1p hypot degrees radians pi e roundBankers roundToExp2 roundDuration roundAge roundDown gcd lcm
+		max2 min2 intExp2 intExp10 isInfinite ifNotFinite isZeroOrNull xor positiveModulo pmod moduloLegacy divideDecimal multiplyDecimal
+		rand rand32 rand64 randConstant randUniform randNormal randomString randomFixedString generateRandomStructure
+		hostName hostname getMacro FQDN basename visibleWidth toColumnTypeName blockSize materialize ignore sleep sleepEachRow currentDatabase currentUser version uptime timezone timeZone
+		serverTimezone serverTimeZone blockNumber rowNumberInBlock rowNumberInAllBlocks neighbor runningDifference runningDifferenceStartingWithFirstValue runningAccumulate
+		isConstant isDecimalOverflow bar transform formatReadableSize formatReadableQuantity formatReadableTimeDelta formatReadableDecimalSize throwIf identity getSetting defaultValueOfArgumentType
+		defaultValueOfTypeName indexHint replicate joinGet dictGet dictGetOrDefault dictHas initializeAggregation byteSize filesystemAvailable toLowCardinality lowCardinalityIndices
+		lowCardinalityKeys tid logTrace isNullable toIPv4 toIPv6 IPv4NumToString IPv4StringToNum IPv6NumToString IPv6StringToNum isIPv4String isIPv6String
+		geoDistance greatCircleDistance pointInPolygon pointInEllipses h3ToGeo geohashEncode geohashDecode
+		multiIf caseWithExpression nullIn notNullIn globalNullIn
+		lagInFrame leadInFrame row_number rank dense_rank nth_value first_value last_value ntile percent_rank
+		sumMap minMap maxMap avgWeighted topK topKWeighted groupArrayInsertAt groupArrayMovingSum groupArrayMovingAvg groupArraySample groupArrayLast groupArraySorted sumWithOverflow sumKahan
+		sumCount deltaSum deltaSumTimestamp uniqCombined uniqCombined64 uniqHLL12 uniqTheta quantiles quantileDeterministic quantileExactLow quantileExactHigh quantileExactWeighted
+		quantileTiming quantileTimingWeighted quantileTDigest quantileTDigestWeighted quantileBFloat16 quantileBFloat16Weighted quantileGK quantileInterpolatedWeighted quantilesExact
+		simpleLinearRegression stochasticLinearRegression corr covarPop covarSamp skewPop skewSamp kurtPop kurtSamp entropy histogram retention sequenceMatch sequenceCount windowFunnel
+		anyHeavy first_value last_value singleValueOrNull boundingRatio categoricalInformationValue contingency cramersV exponentialMovingAverage intervalLengthSum maxIntersections
+		rankCorr studentTTest welchTTest mannWhitneyUTest meanZTest sparkbar groupBitmap groupBitmapAnd groupBitmapOr groupBitmapXor
+	`) {
+		if _, implemented := funcs[n]; !implemented {
+			realButUnimplemented[n] = true
+		}
+	}
+}
+
+// unknownFunction: a function of the list above is "unsupported"; any other unknown name is a
+// statement ClickHouse rejects (UNKNOWN_FUNCTION). Aggregate combinators of listed aggregate
+// functions count as real too.
+func unknownFunction(name string) error {
+	if realButUnimplemented[name] {
+		return unsupported("function %s", name)
+	}
+	for _, c := range aggCombinators {
+		if strings.HasSuffix(name, c) && realButUnimplemented[strings.TrimSuffix(name, c)] {
+			return unsupported("function %s", name)
+		}
+	}
+	return raise("UNKNOWN_FUNCTION", "unknown function %s", name)
 }
